@@ -515,7 +515,11 @@ func (w *World) analyseAtomic(fn *ssa.Function, onStack map[*ssa.Function]bool) 
 	}
 	saved := w.branchMarkers
 	w.branchMarkers = true
+	// a local helper's result prints as what it handed back on the path (so that the
+	// test of `err := helper()` is recognised as the test of the step inside it)
+	w.callResultsOn = true
 	paths, complete := w.enumPaths(fn, eval, event, 4000)
+	w.callResultsOn = false
 	w.branchMarkers = saved
 	v := &atomicVerdict{failClean: true}
 	if !complete {
@@ -937,6 +941,9 @@ func a4(w *World, r *Report) {
 	bad := ""
 	nFail, nOK := 0, 0
 	for _, p := range paths {
+		if os.Getenv("RIGOCHECK_DEBUG") == "a4" {
+			fmt.Fprintln(os.Stderr, "A4 path", p.Term, p.Events, func() string { if p.Ret != nil { return w.InstrPos(p.Ret) }; return "-" }())
+		}
 		if p.Term == "loop" {
 			continue
 		}
